@@ -1535,8 +1535,14 @@ func (f *VFSFile) ReadAt(p []byte, off int64) (n int, err error) {
 		timer.Stop()
 	}
 
-	// Add to cache (cache is thread-safe)
-	f.cache.Add(pgno, data)
+	// Add to cache, unless a poll moved the page on while it was being fetched:
+	// the poll has already invalidated the cache entry, and caching the older
+	// version now would keep serving it after the index has advanced.
+	f.mu.Lock()
+	if cur, ok := f.index[pgno]; ok && cur == elem {
+		f.cache.Add(pgno, data)
+	}
+	f.mu.Unlock()
 
 	n = copy(p, data[pageOffset:])
 	f.logger.Debug("data read from storage", "page", pgno, "n", n, "data", len(data))
